@@ -349,6 +349,20 @@ theorem C03_variation_no_assertion (g : Grammar) (dec : Decider) (fuel : Nat) (p
     · exact badErr_false e (mutateRoot_noBad g dec fuel p2 (some p1) s1 s' e hc ha hr hk hD hmin h2 h)
     · exact absurd h (pure_not_err _ _ _ _)
 
+/-- Why `refinementsUsable` excludes `Dependent(.., VarRange)`: the retry loop of `create_node`
+removes a production that raised `SynthesisException` and asks the decider again; if the
+remaining productions do not fit the budget the decider faces an empty choice.  Witness: with
+the grammar `retryG` (minimum depth 1) at the feasible limit 1, draws `[0, 0]` choose `P1`, make
+`vars` empty, `VarRange([])` raises, `P1` is removed, and `P2` (distance 2) does not fit:
+`AssertionError` midway, although every other hypothesis of `C03_create_no_assertion` holds.
+(With the limit 2 the same draws end in the `SynthesisException` of the exhausted loop.) -/
+theorem C03_retry_witness :
+    distConsistent retryG = true ∧ distAttained retryG = true ∧
+    deciderValid retryG ⟨.grow, 1⟩ = true ∧ refinementsUsable retryG = false ∧
+    (errOf (randomTree retryG ⟨.grow, 1⟩ 50 (exSt [0, 0])) == some (.foreign "AssertionError")) = true ∧
+    (errOf (randomTree retryG ⟨.grow, 2⟩ 50 (exSt [0, 0, 0, 0])) == some .synthesis) = true := by
+  decide
+
 /-- The two side conditions on the distance table are not assumptions about a particular
 analysis: they hold for EVERY solution of the distance equations (`isFixpoint`, the subject of
 C05), given that only abstract classes carry registered alternatives. -/
